@@ -320,6 +320,15 @@ class Gen:
             return "(app (lam %s (v %s)) %s)" % (y, y, e)
         if c == 3:
             return "(seq %s %s)" % (e, e)
+        if c == 4:
+            # through another polymorphic contract (its key collides with the outer one: nested seals)
+            y = self.var("z")
+            b = self.var("b")
+            return "(app (ann (forall %s t (-> (tv %s) (tv %s))) (lam %s (v %s))) %s)" % (b, b, b, y, y, e)
+        if c == 5:
+            y = self.var("z")
+            b = self.var("b")
+            return "(getf fa (app (ann (forall %s t (-> (tv %s) (rect - (fa (tv %s))))) (lam %s (rec (fa (v %s))))) %s))" % (b, b, b, y, y, e)
         return e
 
     # ---- closed values of instantiated (ground) types
@@ -456,6 +465,7 @@ INSPECTORS = [
     ("isfun", "(o1 isfun E)"), ("isarr", "(o1 isarr E)"), ("isrec", "(o1 isrec E)"),
     ("add", "(o2 add E (n 1))"), ("add-right", "(o2 add (n 1) E)"), ("mul", "(o2 mul E (n 2))"),
     ("eq", "(o2 eq E (n 1))"), ("eq-self", "(o2 eq E E)"), ("eq-in-array", "(o2 eq (arr E) (arr E))"),
+    ("eq-in-array-last", "(o2 eq (arr (n 1) E) (arr (n 2) E))"), ("eq-in-record-first", "(o2 eq (rec (fa E) (fb (n 1))) (rec (fa E) (fb (n 2))))"),
     ("lt", "(o2 lt E (n 1))"), ("cat", "(o2 cat E (s a))"), ("tostr", "(o1 tostr E)"),
     ("if", "(if E (n 1) (n 2))"), ("apply", "(app E (n 1))"), ("not", "(o1 not E)"),
     ("length", "(o1 length E)"), ("at", "(o2 at E (n 0))"), ("at-index", "(o2 at (arr (n 1)) E)"),
@@ -466,7 +476,8 @@ INSPECTORS = [
     ("chk-rec", "(ann (rect dyn) E)"),
 ]
 # `seq` is the one primitive that may force a sealed value
-NON_INSPECTORS = [("seq", "(seq E (n 0))"), ("pass-to-id", "(app (lam q (v q)) E)"), ("in-array", "(o1 length (arr E))"),
+NON_INSPECTORS = [("seq", "(seq E (n 0))"), ("eq-short-circuit-array", "(o2 eq (arr E (n 1)) (arr E (n 2)))"),
+                  ("eq-short-circuit-record", "(o2 eq (rec (fa (n 1)) (fb E)) (rec (fa (n 2)) (fb E)))"), ("pass-to-id", "(app (lam q (v q)) E)"), ("in-array", "(o1 length (arr E))"),
                   ("in-record", "(hasf fa (rec (fa E)))"), ("let", "(let q E (n 0))")]
 # laundering through another contract that shares the sealing key (known finding cross-contract-key)
 LAUNDER = "(app (ann (forall zb t (-> dyn (tv zb))) (lam zq (v zq))) E)"
@@ -558,7 +569,7 @@ def make_cases(rng, n, want_alias=False):
         atoms = g.atoms(c["env"])
         var_atoms = [(e, s) for e, s in atoms if s[0] == "tv"]
         row_atoms = [(e, s) for e, s in atoms if s[0] == "rec" and s[2] not in (None, "dyn")]
-        kind = rng.weighted([("parametric", 5), ("inspect", 6), ("noninspect", 2), ("fabricate", 2),
+        kind = rng.weighted([("parametric", 5), ("inspect", 6), ("noninspect", 2), ("fabricate", 3),
                              ("tail", 5), ("launder", 1), ("alias", 3)])
         if kind == "parametric":
             out.append({"sx": base, "klass": "parametric", "prim": "-"})
@@ -577,6 +588,10 @@ def make_cases(rng, n, want_alias=False):
             name, tmpl = rng.choice(INSPECTORS[:8])
             body = "(seq %s %s)" % (tmpl.replace("E", LAUNDER.replace("E", e)), c["body"])
             out.append({"sx": g.assemble(c, body), "klass": "inspect", "prim": "launder+" + name})
+        elif kind == "fabricate" and c["res"][0] == "tv" and rng.chance(1, 2) and [e for e, t in var_atoms if t != c["res"]]:
+            # a value of another quantified type where this one is expected: unseal with the wrong key
+            e = rng.choice([e for e, t in var_atoms if t != c["res"]])
+            out.append({"sx": g.assemble(c, e), "klass": "fabricate", "prim": "other-variable"})
         elif kind == "fabricate" and c["res"][0] == "tv":
             out.append({"sx": g.assemble(c, rng.choice(["(n 42)", "(s fab)", "(arr)", "(rec)"])), "klass": "fabricate", "prim": "const"})
         elif kind == "tail" and row_atoms:
